@@ -47,6 +47,7 @@ def cases(tier, seed):
                 # reverse-time solves (decreasing grid) are supported; their preconditioners dt^k/k! change sign with k, which
                 # nothing on an increasing grid exercises (seed C13-s3 took |.| of the output scaling in the mean)
                 "reverse_time": k % 3 == 0 and (k // 9) % 2 == 1,
+                "prior_reverse": k % 3 == 2 and (k // 3) % 2 == 1,
             }
         )
     return out
@@ -184,18 +185,33 @@ def run_case(case):
         prior = ssm.prior_wiener_integrated(tc, is_exact=False, inexact_eps=0.3, output_scale=bs)
         t0 = prob["t0"]
         grid = np.concatenate([[t0], t0 + np.sort(r.uniform(0.1, 1.0, size=T - 1)) * case["span"]])
-        seq = probdiffeq.MarkovSequence.from_grid(prior, grid=jnp.asarray(grid), reverse=False)
-        # reference joint: x_0 ~ N(m0, P0), x_{k+1} = Phi x_k + N(0, Q)
+        rev = bool(case.get("prior_reverse"))
+        seq = probdiffeq.MarkovSequence.from_grid(prior, grid=jnp.asarray(grid), reverse=rev)
         model = kalman.Model(field=prob["field"], fact=fact, ts="ts0", nu=nu, d=d, base=base)
         m0, L0 = extract.normal_mp(prior.init, d)
-        means = [m0]
-        cov = {(0, 0): mpl.mm(L0, L0.T)}
-        for k in range(1, T):
-            Phi, Q = model.transition(grid[k] - grid[k - 1])
-            means.append(mpl.mm(Phi, means[k - 1]))
-            cov[(k, k)] = mpl.mm(Phi, cov[(k - 1, k - 1)], Phi.T) + Q
-            for j in range(k):
-                cov[(j, k)] = mpl.mm(cov[(j, k - 1)], Phi.T)
+        if not rev:
+            # reference joint: x_0 ~ N(m0, P0), x_{k+1} = Phi(dt_k) x_k + N(0, Q(dt_k))
+            means = [m0]
+            cov = {(0, 0): mpl.mm(L0, L0.T)}
+            for k in range(1, T):
+                Phi, Q = model.transition(grid[k] - grid[k - 1])
+                means.append(mpl.mm(Phi, means[k - 1]))
+                cov[(k, k)] = mpl.mm(Phi, cov[(k - 1, k - 1)], Phi.T) + Q
+                for j in range(k):
+                    cov[(j, k)] = mpl.mm(cov[(j, k - 1)], Phi.T)
+        else:
+            # reversed factorisation: the given marginal sits at the last grid point and conditional k (the transition over
+            # the k-th interval [grid[k], grid[k+1]]) maps x_{k+1} to x_k (seed C13-s4 paired the intervals the wrong way round)
+            obs["prior_reverse_cases"] = 1
+            means = [None] * T
+            means[T - 1] = m0
+            cov = {(T - 1, T - 1): mpl.mm(L0, L0.T)}
+            for k in range(T - 2, -1, -1):
+                Phi, Q = model.transition(grid[k + 1] - grid[k])
+                means[k] = mpl.mm(Phi, means[k + 1])
+                cov[(k, k)] = mpl.mm(Phi, cov[(k + 1, k + 1)], Phi.T) + Q
+                for j in range(k + 1, T):
+                    cov[(k, j)] = mpl.mm(Phi, cov[(k + 1, j)])
         sample_fn = lambda key=jax.random.PRNGKey(0), shape=(): seq.sample(key, shape=shape)  # noqa: E731
         mean_ref = np.stack([mpl.F(m) for m in means])
     else:
